@@ -74,4 +74,214 @@ theorem rejected_otherwise (env : Env) (ds0 : Ds) (loc tail domain : List Byte) 
   cases plainName loc <;> cases userDir env.tree dd loc <;> cases dotQmailFile env.tree dd loc <;>
     cases prefixDefault env.tree dd loc <;> cases catchAll env.tree dd env.vpopbounce <;> simp
 
+/-- **The five forms**, spelled out: `mailboxExists` holds exactly when the local part is a plain
+entry name and (1) it names a directory of the domain directory, or (2) `.qmail-<local>` or
+(3) `.qmail-<local>-default` is there (dots written as colons), or (4) for some position `p` of a
+dash in the local part `.qmail-<local[0..p)>-default` is there, or (5) `.qmail-default` is there and
+is not the configured bounce line. -/
+theorem mailboxExists_forms (t : DirTree) (dd : Nat) (vpb : Option (List Byte)) (loc : List Byte) :
+    mailboxExists t dd vpb loc = true ↔
+      plainName loc = true ∧
+      (userDir t dd loc = true
+       ∨ present (t.child dd (dotQmail ++ colons loc)) = true
+       ∨ present (t.child dd (dotQmail ++ colons loc ++ dashDefault)) = true
+       ∨ (∃ p, loc[p]? = some DASH ∧ present (t.child dd (dotQmail ++ colons (loc.take p) ++ dashDefault)) = true)
+       ∨ catchAll t dd vpb = true) := by
+  have hpre : prefixDefault t dd loc = true ↔
+      ∃ p, loc[p]? = some DASH ∧ present (t.child dd (dotQmail ++ colons (loc.take p) ++ dashDefault)) = true := by
+    unfold prefixDefault
+    rw [List.any_eq_true]
+    constructor
+    · rintro ⟨p, hp, h⟩
+      have := dashIdx_spec loc 0 p hp
+      exact ⟨p, by simpa using this.2.2, h⟩
+    · rintro ⟨p, hp, h⟩
+      have := dashIdx_complete loc 0 p hp
+      exact ⟨p, by simpa using this, h⟩
+  unfold mailboxExists dotQmailFile
+  simp only [Bool.and_eq_true, Bool.or_eq_true, hpre]
+  constructor
+  · rintro ⟨h0, ((h | h | h) | h) | h⟩
+    · exact ⟨h0, Or.inl h⟩
+    · exact ⟨h0, Or.inr (Or.inl h)⟩
+    · exact ⟨h0, Or.inr (Or.inr (Or.inl h))⟩
+    · exact ⟨h0, Or.inr (Or.inr (Or.inr (Or.inl h)))⟩
+    · exact ⟨h0, Or.inr (Or.inr (Or.inr (Or.inr h)))⟩
+  · rintro ⟨h0, h | h | h | h | h⟩
+    · exact ⟨h0, Or.inl (Or.inl (Or.inl h))⟩
+    · exact ⟨h0, Or.inl (Or.inl (Or.inr (Or.inl h)))⟩
+    · exact ⟨h0, Or.inl (Or.inl (Or.inr (Or.inr h)))⟩
+    · exact ⟨h0, Or.inl (Or.inr h)⟩
+    · exact ⟨h0, Or.inr h⟩
+
+/-! ### confinement -/
+
+theorem src_refuses_dot_names : Cfg.src.refuseDotNames = true := by rw [src_is_repaired]; rfl
+theorem src_dash_scan_bounded : Cfg.src.dashScanBounded = true := by rw [src_is_repaired]; rfl
+
+/-- **C13, confinement, the code property that is needed** (any errno classification): if "." and
+".." are refused like names with '/', and the dash search cannot leave the local part (or what
+follows the local part in memory has no '/' and no NUL), then every single path component that
+user_exists() resolves after opening the domain directory is a plain entry name (not empty, no
+'/', not "." or "..") looked up in the domain directory itself. -/
+theorem confined_of_shape (cfg : Cfg) (env : Env) (ds0 : Ds) (loc tail domain : List Byte)
+    (hdots : cfg.refuseDotNames = true) (hdash : cfg.dashScanBounded = true ∨ (SLASH ∉ tail ∧ NUL ∉ tail))
+    (hnul : NUL ∉ loc) :
+    ∀ ev ∈ (userExists cfg env ds0 loc tail domain).evs,
+      ∃ dd, (openat env.tree env.cwd (vgetDir cfg env ds0 domain).ds.domainpath true).1 = .ok dd ∧
+        ev.1 = dd ∧ plainName ev.2 = true :=
+  userExists_evs cfg env ds0 loc tail domain hdots hdash hnul
+
+/-- **C13, confinement.** Whatever the local part (any bytes of a C string: dots, dashes, '/',
+".", "..", quotes, any length), whatever follows it in memory, whatever the directory tree and
+users/cdb contain: every component resolved is a plain name inside the domain directory. -/
+theorem confined (env : Env) (ds0 : Ds) (loc tail domain : List Byte) (hnul : NUL ∉ loc) :
+    ∀ ev ∈ (userExists Cfg.src env ds0 loc tail domain).evs,
+      ∃ dd, (openat env.tree env.cwd (vgetDir Cfg.src env ds0 domain).ds.domainpath true).1 = .ok dd ∧
+        ev.1 = dd ∧ plainName ev.2 = true :=
+  confined_of_shape Cfg.src env ds0 loc tail domain src_refuses_dot_names (Or.inl src_dash_scan_bounded) hnul
+
+/-- **C13, confinement of what is kept.** Starting from a fresh `struct userconf` (as smtp_rcpt()
+does), the domain directory descriptor left in `ds` is the directory users/cdb names, and the user
+directory descriptor -- the one getfile() later reads the user's `filterconf` through -- is the
+entry `loc` of that directory, `loc` being a plain name: it lies inside the domain directory. -/
+theorem consulted_inside (env : Env) (ds0 : Ds) (loc tail domain : List Byte) (hnul : NUL ∉ loc)
+    (h0u : ds0.userdir = none) (h0d : ds0.domaindir = none) :
+    (∀ d, (userExists Cfg.src env ds0 loc tail domain).ds.domaindir = some d →
+      (openat env.tree env.cwd (vgetDir Cfg.src env ds0 domain).ds.domainpath true).1 = .ok d) ∧
+    (∀ u, (userExists Cfg.src env ds0 loc tail domain).ds.userdir = some u → ∃ dd,
+      (openat env.tree env.cwd (vgetDir Cfg.src env ds0 domain).ds.domainpath true).1 = .ok dd ∧
+      (userExists Cfg.src env ds0 loc tail domain).ds.domaindir = some dd ∧
+      plainName loc = true ∧ env.tree.child dd loc = .node u ∧ env.tree.isDir u = true) :=
+  userExists_fds Cfg.src env ds0 loc tail domain src_refuses_dot_names hnul h0u h0d
+
+/-- **C13, configuration is read from inside.** The getfile("filterconf") that follows
+user_exists() resolves exactly the name "filterconf", and only in the domain directory, in the
+user directory (an entry of the domain directory with the plain name `loc`), or -- only when a
+global lookup is asked for -- in the control directory. -/
+theorem config_inside (env : Env) (ds0 : Ds) (loc tail domain : List Byte) (hnul : NUL ∉ loc)
+    (h0u : ds0.userdir = none) (h0d : ds0.domaindir = none) (global : Bool) (t0 : Nat) :
+    ∀ ev ∈ (getfile env (userExists Cfg.src env ds0 loc tail domain).ds filterconf global t0).evs,
+      ev.2 = filterconf ∧
+      ((∃ dd, (openat env.tree env.cwd (vgetDir Cfg.src env ds0 domain).ds.domainpath true).1 = .ok dd ∧
+          (ev.1 = dd ∨ (plainName loc = true ∧ env.tree.child dd loc = .node ev.1))) ∨
+       (global = true ∧ ev.1 = env.controlDir)) := by
+  intro ev hev
+  have hfc : Clean filterconf := by unfold Clean; decide
+  obtain ⟨h1, h2⟩ := getfile_evs env _ filterconf global t0 hfc ev hev
+  obtain ⟨hD, hU⟩ := consulted_inside env ds0 loc tail domain hnul h0u h0d
+  refine ⟨h1, ?_⟩
+  rcases h2 with hu | hd | hg
+  · obtain ⟨dd, hop, _, hpl, hch, _⟩ := hU ev.1 hu
+    exact Or.inl ⟨dd, hop, Or.inr ⟨hpl, hch⟩⟩
+  · exact Or.inl ⟨ev.1, hD ev.1 hd, Or.inl rfl⟩
+  · exact Or.inr hg
+
+/-! ### concrete trees: non-vacuity, and what the unrepaired code does
+
+Nodes: 1 = working directory, 4 = doms, 5 = doms/dom (the domain directory), 6 = doms/dom/user
+(a user directory), 7 = doms/dom/.qmail-a-b@my-default, 9 = doms/filterconf (a marker OUTSIDE the
+domain directory). users/cdb maps "!example.org-" to "doms/dom". -/
+
+def exDoms : List Byte := [100, 111, 109, 115]
+def exDom : List Byte := [100, 111, 109]
+def exUser : List Byte := [117, 115, 101, 114]
+def exForeign : List Byte := [46, 113, 109, 97, 105, 108, 45, 97, 45, 98, 64, 109, 121, 45, 100, 101, 102, 97, 117, 108, 116]
+def exDomain : List Byte := [101, 120, 97, 109, 112, 108, 101, 46, 111, 114, 103]
+def exTail : List Byte := [64, 109, 121, 45, 100, 111, 109, 46, 111, 114, 103]
+
+def exTree : DirTree :=
+  { root := 0
+    parent := fun n => if n = 5 then 4 else if n = 6 then 5 else if n = 4 then 1 else 0
+    isDir := fun n => n = 0 || n = 1 || n = 4 || n = 5 || n = 6
+    content := fun n => if n = 9 then [77, 65, 82, 75, 69, 82, 10] else []
+    readErr := fun _ => none
+    child := fun d name =>
+      if d = 1 ∧ name = exDoms then .node 4
+      else if d = 4 ∧ name = exDom then .node 5
+      else if d = 4 ∧ name = filterconf then .node 9
+      else if d = 5 ∧ name = exUser then .node 6
+      else if d = 5 ∧ name = exForeign then .node 7
+      else .absent }
+
+def exEnv : Env :=
+  { tree := exTree, cwd := 1, controlDir := 3, cdb := .table [([33, 101, 120, 97, 109, 112, 108, 101, 46, 111, 114, 103, 45], [101, 120, 97, 109, 112, 108, 101, 46, 111, 114, 103, 0, 56, 57, 0, 56, 57, 0, 100, 111, 109, 115, 47, 100, 111, 109, 0, 45, 0])], vpopbounce := none, netFail := false }
+
+/-- non-vacuity of `DomainAt` and `Answers`: the example tree satisfies the hypotheses of
+`exists_iff_mailbox`, and the model accepts the user directory there -/
+example : DomainAt Cfg.fixed exEnv Ds.init exDomain 5 := ⟨by decide, by decide⟩
+example : Answers exEnv 5 exUser :=
+  ⟨by intro name e h; simp only [exEnv, exTree] at h; repeat' split at h
+      all_goals simp at h,
+   by intro e h; simp only [exEnv, exTree] at h; repeat' split at h
+      all_goals simp at h,
+   ⟨by intro n h; simp only [exEnv, exTree] at h; repeat' split at h
+       all_goals simp_all [qmailDefault, exDoms, exDom, exUser, exForeign, filterconf],
+    by intro v h; simp [exEnv] at h⟩⟩
+example : (userExists Cfg.fixed exEnv Ds.init exUser exTail exDomain).res = 1 := by decide
+example : mailboxExists exTree 5 none exUser = true := by decide
+
+/-- **Unrepaired code, "..".** `RCPT TO:<..@example.org>`: the result is 1 (accepted), the
+component ".." is resolved in the domain directory, the "user directory" kept in `ds` is node 4 --
+the PARENT of the domain directory -- and the filterconf read next is node 9, the marker outside
+the domain directory.  No such mailbox exists.  The repaired code answers 0 without any lookup. -/
+theorem orig_not_confined :
+    (userExists Cfg.orig exEnv Ds.init [DOT, DOT] exTail exDomain).res = 1 ∧
+    (userExists Cfg.orig exEnv Ds.init [DOT, DOT] exTail exDomain).evs = [(5, [DOT, DOT])] ∧
+    (userExists Cfg.orig exEnv Ds.init [DOT, DOT] exTail exDomain).ds.userdir = some 4 ∧
+    (match (getfile exEnv (userExists Cfg.orig exEnv Ds.init [DOT, DOT] exTail exDomain).ds filterconf false 0).res with
+      | .ok n => n == 9 | .error _ => false) = true ∧
+    mailboxExists exTree 5 none [DOT, DOT] = false ∧
+    (userExists Cfg.fixed exEnv Ds.init [DOT, DOT] exTail exDomain).res = 0 ∧
+    (userExists Cfg.fixed exEnv Ds.init [DOT, DOT] exTail exDomain).evs = [] := by
+  decide
+
+/-- **Unrepaired code, dash search running into the domain.** `RCPT TO:<a-b@my-dom.org>` with a
+file `.qmail-a-b@my-default` in the domain directory: strchr() finds the dash of "my-dom" behind
+the local part, the "prefix" `a-b@my` is probed and the address is accepted with 4, although none
+of the five forms exists for the local part `a-b`.  The repaired code answers 0. -/
+theorem orig_accepts_foreign_prefix :
+    (userExists Cfg.orig exEnv Ds.init [97, 45, 98] exTail exDomain).res = 4 ∧
+    mailboxExists exTree 5 none [97, 45, 98] = false ∧
+    (userExists Cfg.fixed exEnv Ds.init [97, 45, 98] exTail exDomain).res = 0 := by
+  decide
+
+/-- **Unrepaired code, long local part.** 241 bytes: `.qmail-<local>-default` is longer than
+NAME_MAX, openat() fails with ENAMETOOLONG, which qmexists() reports as a control file error:
+the result is -EDONE (`421 4.3.5 unable to read controls`) instead of 0 (`550 5.1.1`), with one
+call of err_control().  The repaired code answers 0. -/
+theorem orig_long_name_is_error :
+    (userExists Cfg.orig exEnv Ds.init (List.replicate 241 97) exTail exDomain).res = -1003 ∧
+    (userExists Cfg.orig exEnv Ds.init (List.replicate 241 97) exTail exDomain).ec = 1 ∧
+    (userExists Cfg.fixed exEnv Ds.init (List.replicate 241 97) exTail exDomain).res = 0 := by
+  decide +kernel
+
+/-! ### users/cdb -/
+
+/-- **The cdb lookup.** With users/cdb as a finite map (first record wins), a domain that fits
+the key buffer and a fresh `struct userconf`: vget_dir() reports the domain as found exactly when
+the map has the key `'!' domain '-'`, and the path it leaves in `ds` is the fourth NUL terminated
+field of that record's value with trailing slashes replaced by exactly one. -/
+theorem domain_lookup (cfg : Cfg) (env : Env) (ds : Ds) (domain : List Byte) (recs : List (List Byte × List Byte))
+    (hcdb : env.cdb = .table recs) (hlen : domain.length + 3 < Gen.cdbKeySize) (hfresh : ds.domainpath = []) :
+    ((vgetDir cfg env ds domain).res = 1 ↔ (recs.find? (fun r => r.1 == BANG :: domain ++ [DASH])).isSome) ∧
+    (∀ r, recs.find? (fun r => r.1 == BANG :: domain ++ [DASH]) = some r →
+      (vgetDir cfg env ds domain).ds.domainpath =
+        stripSlashes (cstr (skipField (skipField (skipField r.2)))) ++ [SLASH]) ∧
+    ((vgetDir cfg env ds domain).res = 1 ∨ (vgetDir cfg env ds domain).res = 0) := by
+  unfold vgetDir
+  simp only [hcdb]
+  rw [if_neg (by omega)]
+  simp only [Cdb.find]
+  cases hf : recs.find? (fun r => r.1 == BANG :: domain ++ [DASH]) with
+  | none => simp
+  | some r =>
+    simp only [Option.isSome_some, iff_true, Option.some.injEq, forall_eq']
+    rw [if_pos (by rw [hfresh]; simp)]
+    simp
+
+/-- non-vacuity: the example environment's users/cdb -/
+example : (vgetDir Cfg.fixed exEnv Ds.init exDomain).res = 1 ∧
+    (vgetDir Cfg.fixed exEnv Ds.init exDomain).ds.domainpath = [100, 111, 109, 115, 47, 100, 111, 109, 47] := by decide
+
 end QsmtpModel.Props.C13
